@@ -7,7 +7,7 @@
    292-297  __getitem__(slice): data = [self.data[k] for k in range( *i.indices(len(self)))];   py_slice_indices, collect,
             cls.Empty() if len(data) == 0 else cls(data)                                      construct
    299      __getitem__(int):   cls(data[i])                                   py_getitem
-   322-326  __setitem__: type test, len(value) > 1 test, data[i] = value.A     m_single_operand, obj_A, py_setitem
+   326-330  __setitem__: type test, len(value) != 1 test, data[i] = value.A     m_single_operand, obj_A, py_setitem
    363-367  append, 425-429 insert: same guards, then list.append / insert     py_insert
    392-394  extend: type test, data.extend(iterable.data)                      py_extend
    458      pop: cls(data.pop(i))                                              py_pop
@@ -94,7 +94,7 @@ Definition m_iter (st : list Z) : list (list Z) := iter_loop st (S (length st)) 
 Definition m_single_operand (v : operand) : res Z :=
   match v with
   | Other => Raise ValueError                                       (* not type(self) == type(value) *)
-  | Same ts => if 1 <? zlen ts then Raise ValueError else Ok (obj_A ts)   (* len(value) > 1 *)
+  | Same ts => if negb (zlen ts =? 1) then Raise ValueError else Ok (obj_A ts)   (* len(value) != 1  (fix b1d6482) *)
   end.
 
 Definition m_step (C : cls) (st : list Z) (o : op) : list Z * res out :=
@@ -175,21 +175,6 @@ Fixpoint run (step : list Z -> op -> list Z * res out) (st : list Z) (ops : list
   match ops with
   | [] => (st, [])
   | o :: r => let '(st', x) := step st o in let '(fin, xs) := run step st' r in (fin, x :: xs)
-  end.
-
-(* ------------------------------------------------------------------ where the code is right: the guards *)
-Definition operand_nonempty (v : operand) : bool := match v with Same [] => false | _ => true end.
-
-Definition op_ok (C : cls) (st : list Z) (o : op) : bool :=
-  match o with
-  | SetItem _ v | Append v | Insert _ v => operand_nonempty v
-  | _ => true
-  end.
-
-Fixpoint run_ok (C : cls) (st : list Z) (ops : list op) : bool :=
-  match ops with
-  | [] => true
-  | o :: r => op_ok C st o && run_ok C (fst (s_step st o)) r
   end.
 
 (* ------------------------------------------------------------------ lemmas *)
@@ -282,31 +267,29 @@ Proof. intros st. unfold m_iter. apply (iter_loop_spec st []). Qed.
 Lemma map_obj_A_single : forall st, map obj_A (map (fun t => [t]) st) = st.
 Proof. induction st; simpl; congruence. Qed.
 
-Lemma single_operand_agree : forall v, operand_nonempty v = true -> m_single_operand v = s_single_operand v.
+Lemma single_operand_agree : forall v, m_single_operand v = s_single_operand v.
 Proof.
-  intros [ts|] H; [|reflexivity]. destruct ts as [|t [|u r]]; simpl in *; try discriminate; try reflexivity.
-  unfold zlen. simpl length.
-  replace (1 <? Z.of_nat (S (S (length r)))) with true by (symmetry; apply Z.ltb_lt; lia). reflexivity.
+  intros [ts|]; [|reflexivity]. destruct ts as [|t [|u r]]; try reflexivity.
+  unfold m_single_operand, s_single_operand, zlen. cbn [length].
+  replace (Z.of_nat (S (S (length r))) =? 1) with false by (symmetry; apply Z.eqb_neq; lia). reflexivity.
 Qed.
 
-(* per-operation refinement: wherever op_ok holds the model step IS the specification step (state, result, error kind) *)
-Lemma step_refines : forall C st o, op_ok C st o = true -> m_step C st o = s_step st o.
+(* per-operation refinement, UNCONDITIONAL: the model step IS the specification step (state, result, error kind) *)
+Lemma step_refines : forall C st o, m_step C st o = s_step st o.
 Proof.
-  intros C st o H. destruct o; cbn [m_step s_step op_ok] in *; try reflexivity.
+  intros C st o. destruct o; cbn [m_step s_step]; try reflexivity.
   - (* GetSlice *) rewrite (slice_full C st a b c). reflexivity.
   - rewrite m_iter_spec. reflexivity.
-  - rewrite single_operand_agree by assumption. reflexivity.
-  - rewrite single_operand_agree by assumption. reflexivity.
-  - rewrite single_operand_agree by assumption. reflexivity.
+  - rewrite single_operand_agree. reflexivity.
+  - rewrite single_operand_agree. reflexivity.
+  - rewrite single_operand_agree. reflexivity.
   - rewrite m_iter_spec, map_obj_A_single. reflexivity.
 Qed.
 
-Lemma run_refines : forall C ops st, run_ok C st ops = true -> run (m_step C) st ops = run s_step st ops.
+Lemma run_refines : forall C ops st, run (m_step C) st ops = run s_step st ops.
 Proof.
-  intros C ops. induction ops as [|o r IH]; intros st H; [reflexivity|].
-  simpl in H. apply andb_true_iff in H. destruct H as [H1 H2].
-  simpl. rewrite (step_refines C st o H1). destruct (s_step st o) as [st' x] eqn:E. simpl in H2.
-  rewrite (IH st' H2). reflexivity.
+  intros C ops. induction ops as [|o r IH]; intros st; [reflexivity|].
+  simpl. rewrite (step_refines C st o). destruct (s_step st o) as [st' x]. rewrite (IH st'). reflexivity.
 Qed.
 
 (* a failed operation leaves the state unchanged: every operation, every state, no guard *)
@@ -323,11 +306,11 @@ Proof.
 Qed.
 
 (* wrong-class and multi-valued operands are rejected *)
-Definition bad_operand (v : operand) : Prop := match v with Other => True | Same ts => 2 <= zlen ts end.
+Definition bad_operand (v : operand) : Prop := match v with Other => True | Same ts => zlen ts <> 1 end.
 Lemma bad_single_operand : forall v, bad_operand v -> m_single_operand v = Raise ValueError.
 Proof.
   intros [ts|] H; [|reflexivity]. simpl in *.
-  replace (1 <? zlen ts) with true by (symmetry; apply Z.ltb_lt; lia). reflexivity.
+  replace (zlen ts =? 1) with false by (symmetry; apply Z.eqb_neq; lia). reflexivity.
 Qed.
 
 (* ------------------------------------------------------------------ encoders and the lock-step runner (the tie) *)
@@ -343,12 +326,11 @@ Definition enc_out (r : res out) : list Z :=
 Definition enc_step (x : list Z * res out) : list Z := enc_out (snd x) ++ zlen (fst x) :: fst x.
 
 (* root cause of a disagreement between model and specification:
-   4 empty object accepted as a value, 9 none expected
-   (1 slice index arithmetic, 2 construction from an empty list, 3 extend by a single value were repaired in /repo and
-   are no longer produced) *)
+   9 none expected
+   (1 slice index arithmetic, 2 construction from an empty list, 3 extend by a single value, 4 empty object accepted as a
+   value were all repaired in /repo and are no longer produced) *)
 Definition classify (C : cls) (st : list Z) (o : op) : Z :=
   match o with
-  | SetItem _ _ | Append _ | Insert _ _ => 4
   | _ => 9
   end.
 
